@@ -261,7 +261,14 @@ class Prims:
                 # identity with None / sentinels: symbolic values are never None
                 r = False if (a is None or b is None) else None
                 if r is None:
-                    raise Unsupported("identity comparison of symbolic values")
+                    other, symv = (b, a) if is_sym(a) else (a, b)
+                    if isinstance(other, bool) and isinstance(symv, z3.BoolRef):
+                        r = symv if other else z3.Not(symv)  # `x is True` for a bool-valued x
+                        return r if isinstance(op, ast.Is) else z3.Not(r)
+                    if isinstance(other, (bool, Record, ModRef)):
+                        r = False
+                    else:
+                        raise Unsupported("identity comparison of symbolic values")
             else:
                 r = a is b
             return r if isinstance(op, ast.Is) else (not r)
@@ -283,7 +290,13 @@ class Prims:
                 return a.map(lambda x: f(x, to_z3(b)), B)
             return b.map(lambda y: f(to_z3(a), y), B)
         if is_sym(a) or is_sym(b):
-            a_, b_ = to_z3(a) if not isinstance(a, str) else a, to_z3(b) if not isinstance(b, str) else b
+            a_, b_ = (to_z3(a) if not isinstance(a, str) else z3.StringVal(a)), (to_z3(b) if not isinstance(b, str) else z3.StringVal(b))
+            if (z3.is_string(a_) != z3.is_string(b_)) or (isinstance(a_, z3.BoolRef) != isinstance(b_, z3.BoolRef) and not z3.is_arith(a_)):
+                # values of different kinds are never equal (a str is not None / not a number)
+                if isinstance(op, ast.Eq):
+                    return False
+                if isinstance(op, ast.NotEq):
+                    return True
             if z3.is_arith(a_) and z3.is_arith(b_):
                 a_, b_ = coerce(a_, b_)
             return {ast.Eq: lambda: a_ == b_, ast.NotEq: lambda: a_ != b_, ast.Lt: lambda: a_ < b_, ast.LtE: lambda: a_ <= b_, ast.Gt: lambda: a_ > b_, ast.GtE: lambda: a_ >= b_}[type(op)]()
@@ -296,8 +309,16 @@ class Prims:
             return seq_member(ex, container)(to_z3(item))
         if isinstance(container, (list, tuple, set, dict)):
             if is_sym(item):
-                return z3.Or([to_z3(item) == to_z3(c) for c in container if isinstance(c, (int, bool)) or is_sym(c)] or [z3.BoolVal(False)])
+                if z3.is_string(item):
+                    return z3.Or([item == z3.StringVal(c) for c in container if isinstance(c, str)] + [item == c for c in container if is_sym(c) and z3.is_string(c)] or [z3.BoolVal(False)])
+                return z3.Or([to_z3(item) == to_z3(c) for c in container if (isinstance(c, (int, bool)) or (is_sym(c) and not z3.is_string(c)))] or [z3.BoolVal(False)])
+            if isinstance(item, Record):
+                return False
             return item in container
+        if is_sym(container) and z3.is_string(container):
+            return z3.Contains(container, z3.StringVal(item) if isinstance(item, str) else item)
+        if isinstance(container, str) and is_sym(item) and z3.is_string(item):
+            return z3.Contains(z3.StringVal(container), item)
         if isinstance(container, GhostSet):
             return container.member(to_z3(item))
         raise Unsupported(f"membership in {type(container).__name__}")
@@ -564,8 +585,25 @@ class Prims:
         if isinstance(fn, Closure):
             return [(st, self.call_closure(ex, st, fn, args, kwargs, node))]
         if isinstance(fn, tuple) and fn and fn[0] == "localfunc":
-            raise Unsupported("call of a nested function")
+            return self.call_local(ex, st, fn[1], args, kwargs, node)
         raise Unsupported(f"call of {type(fn).__name__} at line {node.lineno}")
+
+    def call_local(self, ex, st, fdef, args, kwargs, node):
+        """A nested def (closure over the enclosing function's variables): executed in place, path by path."""
+        child = st.fork()
+        params = [a.arg for a in fdef.args.args]
+        for p_, a in zip(params, args):
+            child.vars[p_] = a
+        for k_, v in kwargs.items():
+            child.vars[k_] = v
+        outs = []
+        for s2, sig, val in ex.exec_block(fdef.body, child):
+            if sig not in (Signal.RETURN, Signal.NORMAL):
+                raise Unsupported("nested function raising / looping out")
+            s3 = st.fork()
+            s3.pc = list(s2.pc)
+            outs.append((s3, val if sig == Signal.RETURN else None))
+        return outs
 
     def call_closure(self, ex, st, fn, args, kwargs, node):
         s = st.fork()
@@ -715,11 +753,14 @@ class Prims:
     def m_isinstance(self, ex, st, a, k, node):
         val, typ = a
         names = [t.path.split(".")[-1] for t in (typ if isinstance(typ, tuple) else (typ,)) if isinstance(t, ModRef)]
+        names += [t.name for t in (typ if isinstance(typ, tuple) else (typ,)) if isinstance(t, RepoFunc)]
         if isinstance(val, SSeq):
             kinds = {"array": {"ndarray"}, "tuple": {"tuple", "Sequence"}, "list": {"list", "Sequence"}, "range": {"range", "Sequence"}}[val.kind]
             return any(nm in kinds for nm in names)
         if isinstance(val, Record):
             return val.kind in names
+        if is_sym(val) and z3.is_string(val):
+            return any(nm == "str" for nm in names)
         if is_sym(val):
             if isinstance(val, z3.ArithRef):
                 return any(nm in ("int", "Integral", "integer") for nm in names)
@@ -952,8 +993,8 @@ class GhostMap:
 class Record:
     """An abstract record (configuration-level execution): fields are concrete or symbolic values."""
 
-    def __init__(self, kind, **fields):
-        self.kind = kind
+    def __init__(self, _kind, **fields):
+        self.kind = _kind
         self.fields = fields
 
     def method(self, ex, st, attr, args, kwargs, node, prims):
